@@ -333,7 +333,7 @@ class SimpleHeatPumpCycle:
         self._dT_subcool = dT_sc   
         self._Q_cond = Q_h_total
         self._eta_comp = eta_comp
-        self._ihx_gas_dt = min(ihx_gas_dt, Tc - Te - dT_sc - dT_sh - 5)
+        self._ihx_gas_dt = max(0.0, min(ihx_gas_dt, Tc - Te - dT_sc - dT_sh - 5))
 
         Te = self._convert_C_to_K(Te)
         Tc = self._convert_C_to_K(Tc)
